@@ -140,6 +140,8 @@ pub struct ExecCtx {
     pub runs_done: AtomicU64,
     pub events_seen: AtomicU64,
     pub run_ns: AtomicU64,
+    /// set after a run hit the wall-clock cap: exploration stops early
+    pub abort: std::sync::atomic::AtomicBool,
 }
 
 static WATCH: Mutex<Vec<(u32, Instant)>> = Mutex::new(Vec::new());
@@ -266,6 +268,12 @@ pub fn exec_scenario(ctx: &ExecCtx, wd: &Workdir, scn: &Scenario, built: &Built)
         let status = child.wait().map_err(|e| e.to_string())?;
         WATCH.lock().unwrap().retain(|(p, _)| *p != pid);
         let wall = t0.elapsed();
+        if wall.as_millis() > 3000 {
+            if let Ok(_) = std::env::var("RBPSIM_SLOW") {
+                let _ = fs::write(format!("/tmp/slow-{}.json", scn.index_no), serde_json::to_string(scn).unwrap());
+                eprintln!("SLOW run {} ms: scenario {} family {} argv {:?} faults {:?} plan {:?}", wall.as_millis(), scn.index_no, scn.family, argv_of(scn, r, &data, &dump), r.disk_faults, r.plan);
+            }
+        }
         let timed_out = {
             let mut t = TIMED_OUT.lock().unwrap();
             let was = t.contains(&pid);
